@@ -1689,6 +1689,18 @@ class QuicConnection:
                     frame_type=frame_type,
                     reason_phrase=str(exc),
                 )
+            except QuicConnectionError:
+                raise
+            except Exception as exc:
+                # Whatever a handshake message sent by the peer contains, it must
+                # close the connection, never make receive_datagram() raise.
+                self._logger.warning("Could not process TLS message: %r", exc)
+                raise QuicConnectionError(
+                    error_code=QuicErrorCode.CRYPTO_ERROR
+                    + int(tls.AlertDescription.decode_error),
+                    frame_type=frame_type,
+                    reason_phrase="Could not process TLS message",
+                )
 
             # Update the current epoch.
             if not self._handshake_complete and self.tls.state in [
